@@ -64,7 +64,7 @@ Proof.
   unfold bind_r. destruct (body (with_pos st mark)) as [[result| |] s1] eqn:E; try discriminate.
   pose proof (Hb _ _ _ E) as H1. cbn in H1.
   destruct (negb (truthy result)); [intros [= <- <-]; cbn; exact H1|].
-  destruct (Nat.leb (pos s1) lm); [intros [= <- <-]; cbn; exact H1|].
+  destruct (truthy lr && Nat.leb (pos s1) lm); [intros [= <- <-]; cbn; exact H1|].
   intros H. rewrite (IH _ _ _ _ _ Hb _ _ _ H). cbn. exact H1.
 Qed.
 
